@@ -294,6 +294,33 @@ pub fn gen_case(prop: &str, thorough: bool, weak: bool, rng: &mut Rng) -> Case {
         "C11" if rng.below(3) == 0 => return gen_c11_readonly(rng, cfg, thorough),
         "C07" | "C01" | "C03" if rng.below(4) == 0 => return gen_aba_storm(rng, cfg, thorough),
         "C07" | "C10" if rng.below(5) == 0 => return gen_guard_roundtrip(rng, cfg, thorough),
+        "C18" if rng.below(5) == 0 => {
+            // user code inside the library that is not a destructor: projections of Map /
+            // MapCache, made to panic on their k-th call
+            let mut case = if rng.below(2) == 0 {
+                crate::extras::gen_c17(rng, cfg, thorough)
+            } else {
+                crate::extras::gen_c16(rng, cfg, thorough)
+            };
+            for t in case.prog.threads.iter_mut().skip(1) {
+                if t.ops.is_empty() || rng.below(3) == 0 {
+                    continue;
+                }
+                for _ in 0..(1 + rng.below(2)) {
+                    let at = rng.below(t.ops.len() as u64 + 1) as usize;
+                    t.ops.insert(
+                        at,
+                        Op::ArmProjPanic {
+                            k: 1 + rng.below(3) as u8,
+                        },
+                    );
+                }
+            }
+            return case;
+        }
+        // ownership accounting also covers what caches and projection guards hold
+        "C02" if rng.below(8) == 0 => return crate::extras::gen_c16(rng, cfg, thorough),
+        "C02" if rng.below(10) == 0 => return crate::extras::gen_c17(rng, cfg, thorough),
         "C16" => return crate::extras::gen_c16(rng, cfg, thorough),
         "C17" => return crate::extras::gen_c17(rng, cfg, thorough),
         _ => {}
